@@ -761,3 +761,18 @@ pub fn run(tier: &str, seed: u64) -> Report {
     }
     rep
 }
+
+/// Parses the register fields of an operation line (`ip=.. regs=..` / `mask=.. lr=.. sp=.. fp=..`).
+pub fn parse_regs_any(arch: crate::spec::Arch, fs: &std::collections::BTreeMap<&str, &str>) -> Option<crate::world::RegsAny> {
+    let h = |k: &str| fs.get(k).and_then(|v| u64::from_str_radix(v, 16).ok());
+    match arch {
+        crate::spec::Arch::X64 => {
+            let mut r = [0u64; 16];
+            for (i, v) in fs.get("regs")?.split(',').enumerate().take(16) {
+                r[i] = u64::from_str_radix(v, 16).ok()?;
+            }
+            Some(crate::world::RegsAny::X(RegsX { ip: h("ip")?, r }))
+        }
+        crate::spec::Arch::A64 => Some(crate::world::RegsAny::A(RegsA { mask: h("mask")?, lr: h("lr")?, sp: h("sp")?, fp: h("fp")? })),
+    }
+}
